@@ -1,0 +1,133 @@
+//! Verification-only, read-only accessors (feature `verif-hooks`).
+//!
+//! Every struct is destructured exhaustively so that adding, removing or renaming a field is a
+//! compile error here rather than a silently unhashed field.
+use super::*;
+use ::core::hash::Hasher;
+use crate::deflate::buffer::{HashBuffers, LocalBuf};
+
+fn hash_u16s<H: Hasher>(v: &[u16], h: &mut H) {
+    for x in v {
+        h.write_u16(*x);
+    }
+}
+
+impl CompressorOxide {
+    /// Feed the complete compressor state to `h`.
+    pub fn verif_hash<H: Hasher>(&self, h: &mut H) {
+        let CompressorOxide {
+            lz,
+            params,
+            huff,
+            dict,
+        } = self;
+        {
+            let LZOxide {
+                codes,
+                code_position,
+                flag_position,
+                total_bytes,
+                num_flags_left,
+            } = lz;
+            h.write(&codes[..]);
+            h.write_usize(*code_position);
+            h.write_usize(*flag_position);
+            h.write_u32(*total_bytes);
+            h.write_u32(*num_flags_left);
+        }
+        {
+            let ParamsOxide {
+                flags,
+                greedy_parsing,
+                window_bits_max,
+                block_index,
+                saved_match_dist,
+                saved_match_len,
+                saved_lit,
+                flush,
+                flush_ofs,
+                flush_remaining,
+                finished,
+                adler32,
+                src_pos,
+                out_buf_ofs,
+                prev_return_status,
+                saved_bit_buffer,
+                saved_bits_in,
+                local_buf,
+            } = params;
+            h.write_u32(*flags);
+            h.write_u8(*greedy_parsing as u8);
+            h.write_u8(*window_bits_max);
+            h.write_u32(*block_index);
+            h.write_u32(*saved_match_dist);
+            h.write_u32(*saved_match_len);
+            h.write_u8(*saved_lit);
+            h.write_i32(*flush as i32);
+            h.write_u32(*flush_ofs);
+            h.write_u32(*flush_remaining);
+            h.write_u8(*finished as u8);
+            h.write_u32(*adler32);
+            h.write_usize(*src_pos);
+            h.write_usize(*out_buf_ofs);
+            h.write_i32(*prev_return_status as i32);
+            h.write_u32(*saved_bit_buffer);
+            h.write_u32(*saved_bits_in);
+            let LocalBuf { b } = &**local_buf;
+            h.write(&b[..]);
+        }
+        {
+            let HuffmanOxide {
+                count,
+                codes,
+                code_sizes,
+            } = &**huff;
+            for t in count.iter() {
+                hash_u16s(t, h);
+            }
+            for t in codes.iter() {
+                hash_u16s(t, h);
+            }
+            for t in code_sizes.iter() {
+                h.write(t);
+            }
+        }
+        {
+            let DictOxide {
+                max_probes,
+                b,
+                code_buf_dict_pos,
+                lookahead_size,
+                lookahead_pos,
+                size,
+                loop_len,
+            } = dict;
+            h.write_u32(max_probes[0]);
+            h.write_u32(max_probes[1]);
+            let HashBuffers { dict, next, hash } = b;
+            h.write(&dict[..]);
+            hash_u16s(&next[..], h);
+            hash_u16s(&hash[..], h);
+            h.write_usize(*code_buf_dict_pos);
+            h.write_usize(*lookahead_size);
+            h.write_usize(*lookahead_pos);
+            h.write_usize(*size);
+            h.write_u8(*loop_len);
+        }
+    }
+
+    /// Bytes of finished output still waiting in the internal buffer.
+    pub fn verif_flush_remaining(&self) -> u32 {
+        self.params.flush_remaining
+    }
+
+    /// Length of the saved lazy match carried to the next call (0 = none).
+    pub fn verif_saved_match_len(&self) -> u32 {
+        self.params.saved_match_len
+    }
+
+    /// The `window_bits` the compressor will declare / was created with.
+    pub fn verif_window_bits_max(&self) -> u8 {
+        self.params.window_bits_max
+    }
+}
